@@ -51,11 +51,28 @@ func main() {
 	if *fixturesOnly {
 		os.Exit(runFixturesOnly(*prop, *verif))
 	}
+	core.EvidenceDir = *outDir
+	if *prop == "all" || strings.Contains(*prop, ",") {
+		props := rules.Props()
+		if *prop != "all" {
+			props = strings.Split(*prop, ",")
+		}
+		rc := 0
+		for _, p := range props {
+			if _, ok := rules.Registry[p]; !ok {
+				fmt.Fprintf(os.Stderr, "unknown property %q (use -list)\n", p)
+				os.Exit(2)
+			}
+			if r := run(p, *tier, *repo, *verif, seed, ""); r > rc {
+				rc = r
+			}
+		}
+		os.Exit(rc)
+	}
 	if _, ok := rules.Registry[*prop]; !ok {
 		fmt.Fprintf(os.Stderr, "unknown property %q (use -list)\n", *prop)
 		os.Exit(2)
 	}
-	core.EvidenceDir = *outDir
 	os.Exit(run(*prop, *tier, *repo, *verif, seed, ""))
 }
 
@@ -84,7 +101,7 @@ func run(prop, tier, repo, verif string, seed int, onlyKey string) int {
 					res.Fatal = append(res.Fatal, fmt.Sprintf("panic while analysing variant %s: %v\n%s", goos, r, debug.Stack()))
 				}
 			}()
-			p, err := core.Load(repo, goos)
+			p, err := loadCached(repo, goos)
 			if err != nil {
 				res.Fatal = append(res.Fatal, fmt.Sprintf("load %s (GOOS=%s): %v", repo, goos, err))
 				return
@@ -145,6 +162,21 @@ func run(prop, tier, repo, verif string, seed int, onlyKey string) int {
 		return 0
 	}
 	return res.Finish(verif, seed)
+}
+
+var progCache = map[string]*core.Prog{}
+
+// loadCached loads a build variant once per process (multi-property runs share the load).
+func loadCached(repo, goos string) (*core.Prog, error) {
+	k := repo + "|" + goos
+	if p, ok := progCache[k]; ok {
+		return p, nil
+	}
+	p, err := core.Load(repo, goos)
+	if err == nil {
+		progCache[k] = p
+	}
+	return p, err
 }
 
 func doExplain(path, prop, repo, verif string) int {
